@@ -525,7 +525,7 @@ func (p c13Profile) render() map[string]any {
 // ---------------------------------------------------------------- oracle
 
 type c13Want struct {
-	Any []*big.Rat // acceptable amounts (more than one only where a list declared both the native and the extended name)
+	Any []*big.Rat // acceptable amounts
 	Why string
 }
 
@@ -544,17 +544,15 @@ func c13Expect(orig c13RLModel, tier string) map[corev1.ResourceName]c13Want {
 	}
 	if q, ok := orig[corev1.ResourceCPU]; ok {
 		w := c13Want{Any: []*big.Rat{c13MilliCeil(q.Val)}, Why: "cpu " + q.Str + " in milli-cores"}
-		if prev, both := want[extCPU]; both {
-			w.Any = append(w.Any, prev.Any...)
-			w.Why += " (or the directly declared " + prev.Why + ")"
+		if prev, both := want[extCPU]; both { // the translated cpu amount must survive, whatever the list said under the extended name
+			w.Why += " (the list also " + prev.Why + " under the extended name)"
 		}
 		want[extCPU] = w
 	}
 	if q, ok := orig[corev1.ResourceMemory]; ok {
 		w := c13Want{Any: []*big.Rat{q.Val}, Why: "memory " + q.Str}
 		if prev, both := want[extMem]; both {
-			w.Any = append(w.Any, prev.Any...)
-			w.Why += " (or the directly declared " + prev.Why + ")"
+			w.Why += " (the list also " + prev.Why + " under the extended name)"
 		}
 		want[extMem] = w
 	}
@@ -795,7 +793,28 @@ func c13Tamper(t *rapid.T, sum c13Summary) (shape, annotation string) {
 		sum[sl.cont][sl.side][sl.rn] = v
 	}
 	shape = rapid.SampledFrom([]string{"superset:extra-batch-entry", "superset:extra-foreign-entry", "superset:extra-batch-entry", "amount-changed",
-		"entry-removed", "extra-container", "respelled", "true-summary"}).Draw(t, "carriedShape")
+		"entry-removed", "extra-container", "respelled", "true-summary", "undecodable"}).Draw(t, "carriedShape")
+	if shape == "undecodable" { // an annotation nobody can read: truncated, wrong type, not JSON, a quantity that is none
+		truth := c13JSON(map[string]any{"containers": sum})
+		kind := rapid.SampledFrom([]string{"truncated", "containers-is-a-list", "bad-quantity", "not-json", "container-is-a-string", "empty"}).Draw(t, "carriedGarbage")
+		if kind == "bad-quantity" && len(used) == 0 {
+			kind = "truncated"
+		}
+		switch kind {
+		case "truncated":
+			return shape + ":" + kind, truth[:len(truth)-1]
+		case "containers-is-a-list":
+			return shape + ":" + kind, `{"containers":[]}`
+		case "bad-quantity":
+			set(rapid.SampledFrom(used).Draw(t, "carriedSlot"), "1.5.0Qx")
+			return shape + ":" + kind, c13JSON(map[string]any{"containers": sum})
+		case "not-json":
+			return shape + ":" + kind, "containers: {}"
+		case "container-is-a-string":
+			return shape + ":" + kind, `{"containers":{"c0":"1"}}`
+		}
+		return shape + ":" + kind, ""
+	}
 	if len(sum) == 0 && shape != "true-summary" {
 		shape = "extra-container" // nothing to be a superset of: the pod has no batch entries at all
 	}
@@ -1045,7 +1064,7 @@ func TestVerifC13Mutating(t *testing.T) {
 		c.ClassIf(translated && fractional, "translated:fractional-cpu")
 		c.ClassIf(translated && subMilli, "translated:sub-milli-cpu")
 		c.ClassIf(translated && limitNoReq, "translated:limit-without-request")
-		c.ClassIf(translated && bothNames, "translated:native-and-extended-in-one-list(either amount accepted)")
+		c.ClassIf(translated && bothNames, "translated:native-and-extended-in-one-list")
 		c.ClassIf(initOrOverhead, "translated:init-container-or-overhead")
 		if translated && (fractional || subMilli || limitNoReq) {
 			c.NonTrivial(renderCase())
@@ -1113,9 +1132,14 @@ func TestVerifC13Mutating(t *testing.T) {
 		}{{"original object", origWith}, {"admitted object", admittedWith}} {
 			got, err := c13Admit(h, admissionv1.Create, []byte(c13JSON(in.pod)))
 			if err != nil {
+				if strings.HasPrefix(shape, "undecodable") { // refusing such a pod is fine; admitting it with the annotation as it is, is not
+					c.Class("carried-annotation:undecodable:refused")
+					continue
+				}
 				c.Class("~error-with-carried-annotation(not asserted)")
 				break
 			}
+			c.ClassIf(strings.HasPrefix(shape, "undecodable"), "carried-annotation:undecodable:admitted")
 			if s2, m2, _ := c13CheckAnnotation(got); s2 != "" {
 				c.Violation(t, s2+":carried-annotation", "%s admitted while carrying the annotation %s (shape %s): %s; result=%s case=%s", in.what, carried, shape, m2, c13JSON(got), renderCase())
 				return
